@@ -2,7 +2,7 @@
    Property theorems only; proofs are in proofs/RoadProofs.v (generic
    reachability in proofs/Reach.v), the declarative side in spec/RoadSpec.v. *)
 From Coq Require Import ZArith List Bool.
-From TV Require gen.Consts proofs.TieGame.
+From TV Require gen.Consts proofs.TieRoad.
 From TV Require Import model.Tak model.Road spec.RoadSpec proofs.RoadProofs.
 Import ListNotations.
 Open Scope Z_scope.
@@ -31,4 +31,4 @@ Theorem C02_no_road_agrees_winner : forall p, has_road p = None <-> snd (winner 
 Proof. exact has_road_none_winner. Qed.
 (* tie (G): Kind.is_road of the tree under test is the model's kind_is_road (walls are not road pieces) *)
 Theorem C02_tie_kind_is_road : Consts.kind_is_road = map kind_is_road [Flat; Standing; Capstone].
-Proof. exact TieGame.tie_kind_is_road. Qed.
+Proof. exact TieRoad.tie_road_kinds. Qed.
